@@ -23,6 +23,14 @@ type findingDef struct {
 }
 
 var findingDefs = []findingDef{
+	{"KF-CENTER-OVERFLOW", "Rect.Center() computes (Max+Min)/2, which overflows to +-Inf when |Max+Min| exceeds MaxFloat64 (coordinates around +-1e308); Center() of every kind that derives it from the rectangle is affected, including a Feature wrapping a single point, whose centre should be the position itself",
+		[]string{"C11:center-", "C11:pool-center-"}},
+	{"KF-COLLECTION-VALID-RECT-ONLY", "collection.Valid() (GeometryCollection, FeatureCollection, MultiPoint) looks only at the collection's rectangle, which is built from non-empty children: an out-of-range position carried by an empty child (a constructor-built LineString of one position) is not seen and the collection reports itself valid",
+		[]string{"C11:valid-", "C11:pool-valid-"}},
+	{"KF-FEATURE-OF-COLLECTION", "a Feature wrapping a collection is iterated as a single part (Feature.ForEach yields the Feature itself), so collection.Contains / Intersects ask each child to contain the whole wrapped collection: Feature(GeometryCollection[polygon, line]) does not contain itself and does not answer as the GeometryCollection it wraps when it is the argument of a collection predicate",
+		[]string{"C09:transparency-", "C09:reflexive-contains:Feature-Feature", "C10:feature-part"}},
+	{"KF-CIRCLE-RECT", "a Circle is a great-circle disc for points but its Rect() is the box of the 64-gon whose half-width is the longitude reached by heading due east, which does not cover the disc away from the equator: Circle((0,60), 2000 km) contains / intersects the point (33.25,60) (1,829 km away) although the rectangles are disjoint, and MultiPoint.Intersects(Circle) is false while Circle.Intersects(MultiPoint) is true",
+		[]string{"C09:contains=>rect-covers:Circle-", "C09:intersects=>rects-meet:Circle-", "C09:intersects=>rects-meet:Feature-Circle", "C09:intersects=>rects-meet:Point-Circle", "C09:intersects=>rects-meet:SimplePoint-Circle", "C09:symmetry:Circle-", "C09:symmetry:MultiPoint-Circle", "C13:rect-"}},
 	{"KF-CIRCLE-DROPS-MEMBERS", "a Feature in the Circle convention keeps only the centre's x,y and the radius: id, bbox, other members of the feature or of its properties, members of the point geometry and z/m ordinates are dropped by Parse and absent from JSON()",
 		[]string{"*:circle-drops-members"}},
 	{"KF-MIXED-DIMS-REJECTED", "a LineString / Polygon / Multi* coordinate member whose first position has two ordinates and a later one three or four is rejected ('invalid coordinates') although every position is an array of two to four numbers; deliberate in the parser (dimensionality is fixed by the first position)",
@@ -30,7 +38,7 @@ var findingDefs = []findingDef{
 	{"KF-ORDER-DEPENDENT-CONTAINS", "polygon-contains-line/rect answers depend on the order in which the segment search reports hits (ringContainsSegment keeps the index of the first boundary segment the endpoint lies on, and its case analysis branches on it), so for self-touching rings with >= 17/33 points the answer differs between no index, r-tree and quadtree although the search itself reports exactly the same set; e.g. the 33-point 'comb' ring and the line (0,4)-(10,0)",
 		[]string{"C04:predicate-index-dependence", "C04:predicate-move-dependence"}},
 	{"KF-LINE-CONTAINS", "Line.ContainsLine (also reached by Line.ContainsRect/ContainsPoly for zero-area shapes) walks the receiver's segments and is wrong both ways: true when a later segment of the other line leaves the receiver mid-segment, false when a segment spans two collinear receiver segments or the receiver starts with a repeated vertex",
-		[]string{"*:contains-line-line", "*:contains-line-rect", "*:contains-line-poly"}},
+		[]string{"*:contains-line-line", "*:contains-line-rect", "*:contains-line-poly", "C09:reflexive-contains:", "C09:contains=>rect-covers:"}},
 	{"KF-RING-CONTAINS-SEGMENT", "ringContainsSegment on a concave ring: returns true without a crossing test when a segment endpoint coincides with a ring vertex (false positives, e.g. across the mouth of a U), and false for a contained segment that touches a reflex vertex from inside or runs along an edge and continues inside (false negatives); propagates to polygon-contains-line/rect/polygon",
 		[]string{"*:contains-poly-line-false-positive-concaveA", "*:contains-poly-line-false-negative-concaveA", "*:contains-poly-poly-false-positive-concaveA", "*:contains-poly-poly-false-negative-concaveA", "*:contains-poly-rect-false-positive-concaveA", "*:contains-poly-rect-false-negative-concaveA"}},
 	{"KF-HOLE-RULES", "polygon-with-hole containment: a shape that only touches a hole's boundary (at a vertex or along an edge) is reported as not contained, a line through a concave hole's interior or a polygon equal to / filling the hole is reported as contained (hole tests use the strict-interior ring predicates, which miss or over-count boundary contacts)",
